@@ -1,12 +1,16 @@
 #!/bin/bash
-# usage: tools/try_mutant.sh <patch.diff> <PROP> [budget_s] [workers]   — applies a seeded change to /repo, runs the check, reverts.
+# usage: tools/try_mutant.sh <patch.diff> <PROP> [budget_s] [workers]
+# Tries a seeded change without touching /repo: a detached scratch worktree of /repo's HEAD gets the
+# patch, the check is built against it (VERIF_REPO) into a private build directory, and both are
+# removed again.  (Confirmation runs for seeded/<id>/meta.json use confirm_mutant.sh, which applies the
+# change to /repo itself as the brief prescribes.)
 set -u
-patch=$1; prop=$2; budget=${3:-30}; workers=${4:-16}
-cd /repo || exit 2
-if ! git diff --quiet; then echo "REPO DIRTY - refusing"; exit 2; fi
-git apply "$patch" || { echo "patch does not apply"; exit 2; }
+patch=$(readlink -f "$1"); prop=$2; budget=${3:-30}; workers=${4:-16}
+W=$(mktemp -d /tmp/verif-mut-XXXXXX); rmdir "$W"
+git -C /repo worktree add -q --detach "$W" HEAD || exit 2
+trap 'git -C /repo worktree remove --force "$W" >/dev/null 2>&1; rm -rf "$W"' EXIT
+git -C "$W" apply "$patch" || { echo "patch does not apply"; exit 2; }
 cd /verif
-bin/check "$prop" --budget "$budget" --workers "$workers" --no-evidence 2>&1 | grep -v "^faults\|^probes" | cut -c1-600 | tail -${TAIL:-12}
+VERIF_REPO="$W" bin/check "$prop" --budget "$budget" --workers "$workers" --no-evidence 2>&1 | grep -v "^faults\|^probes" | cut -c1-600 | tail -${TAIL:-12}
 rc=${PIPESTATUS[0]}
-git -C /repo checkout -- .
 echo "exit=$rc"
